@@ -499,6 +499,16 @@ func cmdVC(args []string) int {
 // check: the registered command
 // ---------------------------------------------------------------------------
 
+// lookupKnown: findings are keyed by obligation name; a finding recorded without the @retN / @bN suffix covers every
+// return / back edge of that obligation
+func lookupKnown(known map[string]knownFinding, name string) (knownFinding, bool) {
+	if kf, ok := known[name]; ok {
+		return kf, true
+	}
+	kf, ok := known[canonName(name)]
+	return kf, ok
+}
+
 type knownFinding struct {
 	Prop, Obligation, What string
 }
@@ -717,13 +727,13 @@ func report(e *Engine, prop, tier string, seed int, t0 time.Time, ts []target, r
 			if len(samples) < 6 {
 				samples = append(samples, map[string]any{"obligation": v.Ob.Name, "at": v.Ob.Pos, "statement": v.Ob.Text, "solver": v.Solver, "ms": v.Ms})
 			}
-			if kf, ok := known[v.Ob.Name]; ok {
+			if kf, ok := lookupKnown(known, v.Ob.Name); ok {
 				// a known finding that no longer fails: fine, just say so
 				fmt.Printf("NOTE: known finding no longer reproduces: %s (%s)\n", v.Ob.Name, kf.What)
 			}
 			continue
 		}
-		if kf, ok := known[v.Ob.Name]; ok {
+		if kf, ok := lookupKnown(known, v.Ob.Name); ok {
 			knownHit = append(knownHit, v.Ob.Name)
 			fmt.Printf("KNOWN-FINDING: property=%s %s: %s\n", prop, v.Ob.Name, kf.What)
 			nDis++ // accounted for: not part of the proof claim, listed separately
